@@ -1360,7 +1360,22 @@ class Message(ABC):
         self._serialized_on_wire = True
         proto_meta = self._betterproto
         read = 0
-        for parsed in load_fields(stream):
+        fields = load_fields(stream)
+        # Stop before reading a field that belongs to the next message.
+        while size is None or read < size:
+            parsed = next(fields, None)
+            if parsed is None:
+                break
+            if size is not None:
+                prev = read
+                read += len(parsed.raw)
+                if read > size:
+                    raise ValueError(
+                        f"Expected message of size {size}, can only read "
+                        f"either {prev} or {read} bytes - there is no "
+                        "message of the expected size in the stream."
+                    )
+
             field_name = proto_meta.field_name_by_number.get(parsed.number)
             if not field_name:
                 self._unknown_fields += parsed.raw
@@ -1414,19 +1429,6 @@ class Message(ABC):
                 current.extend(value)
             else:
                 setattr(self, field_name, value)
-
-            # If we have now loaded the expected length of the message, stop
-            if size is not None:
-                prev = read
-                read += len(parsed.raw)
-                if read == size:
-                    break
-                elif read > size:
-                    raise ValueError(
-                        f"Expected message of size {size}, can only read "
-                        f"either {prev} or {read} bytes - there is no "
-                        "message of the expected size in the stream."
-                    )
 
         if size is not None and read < size:
             raise ValueError(
